@@ -281,6 +281,7 @@ func (co *ClipperOffset) executeInternal(delta float64) {
 		fillRule = Positive
 	}
 
+	verifEventPaths("offset-raw", *co.solution)
 	c := NewClipper64()
 	c.preserveCollinear = co.PreserveCollinear
 	c.reverseSolution = co.ReverseSolution != pathsReversed
